@@ -1,5 +1,7 @@
 package ergo
 
+import "unicode/utf8"
+
 // C19 (structure): the rows of the human list are a complete, non-duplicating picture of the
 // store. The row set is the node tree buildListRoots hands to the renderer (one row per node);
 // byte-level layout of a row (width, truncation, UTF-8) is outside this unit.
@@ -123,5 +125,60 @@ func zzC19_TreeLine() {
 	zzAssume(zzWidth(task.ID) == len(task.ID)) // ids are ASCII
 	line := formatTreeLine(zzString("prefix"), zzString("connector"), zzBool("showConnector"), zzString("icon"), task.ID, zzString("title"), nil, zzString("blocker"), task, zzBool("ready"), zzBool("color"), tw)
 	zzAssert(zzWidth(line) >= tw-idRightMargin || tw < idRightMargin+idMinGap+len(task.ID), "C19/layout: the id never ends left of its right-hand column")
+	zzReach("end")
+}
+
+// ---- byte level: blocker names shortened by abbreviate stay valid UTF-8 ----
+
+// zzUTF8Valid: RFC 3629 well-formedness written as a byte state machine (an independent copy of
+// what unicode/utf8.ValidString decides; the native replay also asks the library).
+func zzUTF8Valid(s string) bool {
+	need := 0
+	lo, hi := byte(0x80), byte(0xBF)
+	ok := true
+	for i := 0; i < len(s); i++ {
+		c := s[i]
+		if need == 0 {
+			switch {
+			case c < 0x80:
+			case c >= 0xC2 && c <= 0xDF:
+				need, lo, hi = 1, 0x80, 0xBF
+			case c == 0xE0:
+				need, lo, hi = 2, 0xA0, 0xBF
+			case (c >= 0xE1 && c <= 0xEC) || c == 0xEE || c == 0xEF:
+				need, lo, hi = 2, 0x80, 0xBF
+			case c == 0xED:
+				need, lo, hi = 2, 0x80, 0x9F
+			case c == 0xF0:
+				need, lo, hi = 3, 0x90, 0xBF
+			case c >= 0xF1 && c <= 0xF3:
+				need, lo, hi = 3, 0x80, 0xBF
+			case c == 0xF4:
+				need, lo, hi = 3, 0x80, 0x8F
+			default:
+				ok = false
+			}
+		} else {
+			if c < lo || c > hi {
+				ok = false
+			}
+			need--
+			lo, hi = 0x80, 0xBF
+		}
+	}
+	return ok && need == 0
+}
+
+func zzC19_AbbreviateUTF8() {
+	s := zzBytes("title", 6)
+	n := zzInt("maxLen")
+	zzAssume(n >= 2 && n <= 5)
+	zzAssume(zzUTF8Valid(s))
+	r := abbreviate(s, n)
+	if len(s) <= n {
+		zzAssert(r == s, "C19/utf8: a text that fits is shown unaltered")
+	} else {
+		zzAssert(zzUTF8Valid(r) && utf8.ValidString(r), "C19/utf8[abbreviate cuts by bytes]: a shortened blocker name is valid UTF-8")
+	}
 	zzReach("end")
 }
